@@ -446,7 +446,8 @@ class Emitter:
                 continue
             try:
                 self.emit_function(fn, spec)
-            except Unsupported:
+            except Unsupported as e_:
+                self.skip_reasons = getattr(self, 'skip_reasons', {}); self.skip_reasons[c] = str(e_)
                 self.fn_text.pop(c, None)
                 self.cur = None
                 if fn['id'] in self.lambda_ctx:
@@ -651,6 +652,13 @@ class Emitter:
                 ps = params_of(c)
                 if len(ps) == len(args) and [norm(qt(p_)) for p_ in ps] == want:
                     cands.append(c)
+        if not cands:
+            # arguments that convert implicitly (a concrete handler into any_completion_handler, ...):
+            # the only constructor with that many parameters, if there is exactly one
+            bycount = [c for c in self.all_members(rd) if c.get('kind') == 'CXXConstructorDecl' and has_body(c)
+                       and len(params_of(c)) == len(args) and not c.get('isImplicit')]
+            if len(bycount) == 1:
+                cands = bycount
         return cands[0] if cands else None
 
     def all_members(self, rd):
